@@ -153,6 +153,12 @@ def gen_program(rng):
             "weights": ws, "sched": rng.choice(["RunDaily", "RunWeekly", "RunOnce", "RunEveryNPeriods"]),
             "integer": rng.random() < 0.5, "comm": rng.choice([[0, 0, 0], [0, 0, 0], [3, 0, 0.001], [1, 1.0, 0]]),
             "bidoffer": rng.random() < 0.3}
+    if rng.random() < 0.3:
+        # a wind-down: the scheduled notional is exactly 0 for a stretch (the book is closed), sometimes built up again afterwards
+        i = rng.randint(1, T - 1)
+        j = rng.randint(i, T - 1)
+        for k in range(i, j + 1):
+            spec["notional"][k] = 0.0
     return spec
 
 
